@@ -40,6 +40,8 @@ type Env struct {
 	// a bound method value `f := x.m` called as f(args): the receiver x, in the env where the method value was made
 	boundRecv ssa.Value
 	boundEnv  *Env
+	dead      map[*ssa.BasicBlock]bool
+	deadBusy  bool
 }
 
 // ukey: a key that is unique per calling context (the printable ctx is built from function *names*, which methods of
@@ -634,6 +636,19 @@ func (e *Env) structField(sv ssa.Value, idx int, depth int) (ssa.Value, *Env) {
 		}
 		if n == 1 {
 			return val, e
+		}
+		if n == 0 {
+			// not mentioned in the literal: the zero value
+			if st, ok := al.Type().(*types.Pointer).Elem().Underlying().(*types.Struct); ok && idx < st.NumFields() {
+				if bt, ok := st.Field(idx).Type().Underlying().(*types.Basic); ok {
+					switch {
+					case bt.Info()&types.IsInteger != 0:
+						return ssa.NewConst(constant.MakeInt64(0), st.Field(idx).Type()), e
+					case bt.Info()&types.IsBoolean != 0:
+						return ssa.NewConst(constant.MakeBool(false), st.Field(idx).Type()), e
+					}
+				}
+			}
 		}
 	}
 	return nil, nil
@@ -1256,12 +1271,21 @@ func (e *Env) Term(v ssa.Value) string {
 		defer delete(e.inPhi, v)
 		var t string
 		same := true
+		// in a calling context, values arriving from branches that the context rules out (a constant flag of a parameter
+		// object: `if action.removesSupply { x = neg } else { x = pos }`) do not count
+		var dead map[*ssa.BasicBlock]bool
+		if e.Parent != nil && len(v.Edges) > 1 && len(v.Edges) == len(v.Block().Preds) {
+			dead = e.deadBlocksCached()
+		}
 		for i, ed := range v.Edges {
 			if ed == ssa.Value(v) {
 				continue
 			}
+			if dead != nil && dead[v.Block().Preds[i]] {
+				continue
+			}
 			s := e.termNoCycle(ed, v)
-			if i == 0 || t == "" {
+			if t == "" {
 				t = s
 			} else if s != t {
 				same = false
@@ -2014,6 +2038,21 @@ func (e *Env) sliceBase(v ssa.Value, depth int) (*Env, ssa.Value, LE, bool) {
 			}
 			return e, init, adv, true
 		}
+		// `var rest [][]byte; if len(args) > k { rest = args[k:] }`: the nil alternative has no elements to name
+		var only ssa.Value
+		for _, ed := range x.Edges {
+			if isNilConst(ed) {
+				continue
+			}
+			if only != nil && only != ed {
+				only = nil
+				break
+			}
+			only = ed
+		}
+		if only != nil && only != ssa.Value(x) {
+			return e.sliceBase(only, depth+1)
+		}
 	case *ssa.Slice:
 		if _, isSlice := x.X.Type().Underlying().(*types.Slice); !isSlice {
 			return nil, nil, LE{}, false
@@ -2031,6 +2070,59 @@ func (e *Env) sliceBase(v ssa.Value, depth int) (*Env, ssa.Value, LE, bool) {
 		return e, x.X, off, true
 	}
 	return nil, nil, LE{}, false
+}
+
+// coupledInduction: phi = φ(a0, phi + c) with a constant step c, in a loop header that also carries the counter
+// i = φ(k0, i + 1) (constant k0): at the header phi equals a0 + c·(i − k0). Only for a phi that is not itself such a counter
+// (constant start and step 1), so that the counter keeps its own atom.
+func (e *Env) coupledInduction(phi *ssa.Phi) (LE, bool) {
+	if !isInteger(phi.Type()) || len(phi.Edges) != 2 || (e.inPhi != nil && e.inPhi[phi]) {
+		return LE{}, false
+	}
+	latch := -1
+	var c int64
+	for i, ed := range phi.Edges {
+		if bo, ok := ed.(*ssa.BinOp); ok && bo.Op == token.ADD && bo.X == ssa.Value(phi) {
+			if k, ok := constInt(bo.Y); ok && k > 0 {
+				latch, c = i, k
+			}
+		}
+	}
+	if latch < 0 {
+		return LE{}, false
+	}
+	init := phi.Edges[1-latch]
+	if _, isK := constInt(init); isK && c == 1 {
+		return LE{}, false // a counter itself
+	}
+	for _, in := range phi.Block().Instrs {
+		cnt, ok := in.(*ssa.Phi)
+		if !ok {
+			break
+		}
+		if cnt == phi || !isInteger(cnt.Type()) || len(cnt.Edges) != 2 {
+			continue
+		}
+		k0, ok := constInt(cnt.Edges[1-latch])
+		if !ok {
+			continue
+		}
+		bo, ok := cnt.Edges[latch].(*ssa.BinOp)
+		if !ok || bo.Op != token.ADD || bo.X != ssa.Value(cnt) {
+			continue
+		}
+		if one, ok := constInt(bo.Y); !ok || one != 1 {
+			continue
+		}
+		if e.inPhi == nil {
+			e.inPhi = map[*ssa.Phi]bool{}
+		}
+		e.inPhi[phi] = true
+		il := e.LE(init)
+		delete(e.inPhi, phi)
+		return il.plus(e.atomOf(cnt).addK(-k0).scale(c)), true
+	}
+	return LE{}, false
 }
 
 // sliceInduction: phi is a loop-carried slice φ(init, phi[c:]) with a constant c, in a loop header that also carries an
@@ -2429,6 +2521,10 @@ func (e *Env) LE(v ssa.Value) LE {
 			}
 		}
 	case *ssa.Phi:
+		// a second induction variable of a counted loop: a = φ(a0, a + c) next to i = φ(k0, i + 1) is a0 + c·(i − k0)
+		if l, ok := e.coupledInduction(v); ok {
+			return l
+		}
 		t := e.Term(v)
 		if !strings.Contains(t, "#"+v.Name()+"@") && isInteger(v.Type()) {
 			// all incoming values agree: use one of them
@@ -4197,6 +4293,21 @@ func (e *Env) deadBlocks() map[*ssa.BasicBlock]bool {
 		}
 	}
 	return out
+}
+
+// deadBlocksCached: deadBlocks, computed once per environment; empty while it is being computed.
+func (e *Env) deadBlocksCached() map[*ssa.BasicBlock]bool {
+	if e.dead != nil {
+		return e.dead
+	}
+	if e.deadBusy {
+		return nil
+	}
+	e.deadBusy = true
+	d := e.deadBlocks()
+	e.deadBusy = false
+	e.dead = d
+	return d
 }
 
 // unreachableUnder: every path from the entry to block p traverses an edge that contradicts the assumptions.
